@@ -4,7 +4,12 @@ use serde_json::{json, Map, Value};
 use std::collections::BTreeMap;
 use std::time::Instant;
 
-pub const VERIF: &str = "/verif";
+pub fn verif_home() -> String {
+    std::env::var("VERIF_HOME").unwrap_or_else(|_| "/verif".to_string())
+}
+pub fn repo_home() -> String {
+    std::env::var("SOLSTAT_REPO").unwrap_or_else(|_| "/repo".to_string())
+}
 
 #[derive(Clone, Debug)]
 pub struct Violation {
@@ -132,7 +137,7 @@ impl Run {
             "wall_s": (wall * 1000.0).round() / 1000.0,
             "violations": unlisted,
         });
-        let dir = format!("{}/evidence", VERIF);
+        let dir = format!("{}/evidence", verif_home());
         let _ = std::fs::create_dir_all(&dir);
         let path = format!("{}/{}.json", dir, self.property);
         if let Err(e) = std::fs::write(&path, serde_json::to_string_pretty(&evidence).unwrap() + "\n") {
@@ -177,7 +182,7 @@ pub struct Known {
 }
 
 pub fn load_known() -> Vec<Known> {
-    let path = format!("{}/known_findings.json", VERIF);
+    let path = format!("{}/known_findings.json", verif_home());
     let txt = match std::fs::read_to_string(&path) {
         Ok(t) => t,
         Err(_) => return Vec::new(),
@@ -203,7 +208,7 @@ pub fn load_known() -> Vec<Known> {
 }
 
 fn write_replay(property: &str, v: &Violation, occurrences: usize) -> String {
-    let dir = format!("{}/replays", VERIF);
+    let dir = format!("{}/replays", verif_home());
     let _ = std::fs::create_dir_all(&dir);
     let h = crate::util::fnv(&format!("{}|{}", v.site, v.input));
     let path = format!("{}/{}-{:016x}.json", dir, property, h);
